@@ -68,6 +68,9 @@ pub struct WorkerOut {
     pub capped: bool,
     /// replay mode: collect violations here instead of writing protocol lines
     pub collected: Option<Vec<(String, String, Value)>>,
+    /// set by the case runner when this process should be replaced by a fresh one (resource leaks
+    /// of the code under test)
+    pub retire: bool,
 }
 
 impl WorkerOut {
@@ -99,9 +102,9 @@ impl WorkerOut {
     pub fn count(&mut self, k: &str, n: u64) {
         *self.counters.entry(k.to_string()).or_insert(0) += n;
     }
-    fn emit_final(&self) {
+    fn emit_final(&self, more: bool, last_pos: Option<usize>) {
         let line = json!({
-            "t": "s", "evals": self.evals, "transitions": self.transitions, "cases": self.cases_done,
+            "t": "s", "more": more, "last_pos": last_pos, "evals": self.evals, "transitions": self.transitions, "cases": self.cases_done,
             "states": self.states.iter().collect::<Vec<_>>(), "outcomes": self.outcomes.iter().collect::<Vec<_>>(),
             "samples": self.samples, "counters": self.counters, "capped": self.capped,
         });
@@ -114,6 +117,12 @@ impl WorkerOut {
 /// Runs the worker's share.  `order[i]` is the case index executed i-th overall.
 pub fn worker_loop(spec: &WorkerSpec, order: &[usize], mut run_case: impl FnMut(usize, &mut WorkerOut)) -> ! {
     let mut out = WorkerOut::default();
+    // The code under test may leak threads / descriptors per case (e.g. reference cycles that keep
+    // thread pools alive); a worker therefore retires after a bounded number of cases and the parent
+    // starts a fresh one behind it.
+    let max_cases: u64 = std::env::var("VERIF_WORKER_MAX_CASES").ok().and_then(|s| s.parse().ok()).unwrap_or(150);
+    let mut last_pos = None;
+    let mut more = false;
     for (pos, &case_idx) in order.iter().enumerate() {
         if pos % spec.j != spec.k {
             continue;
@@ -127,12 +136,17 @@ pub fn worker_loop(spec: &WorkerSpec, order: &[usize], mut run_case: impl FnMut(
             out.capped = true;
             break;
         }
+        if out.cases_done >= max_cases || out.retire {
+            more = true;
+            break;
+        }
         let _ = std::fs::write(&spec.cur_file, format!("{pos}"));
         run_case(case_idx, &mut out);
         out.cases_done += 1;
+        last_pos = Some(pos);
     }
     let _ = std::fs::write(&spec.cur_file, "done");
-    out.emit_final();
+    out.emit_final(more, last_pos);
     std::process::exit(0)
 }
 
@@ -190,6 +204,7 @@ pub fn parent_run(
                     let mut child = cmd.spawn().unwrap_or_else(|e| machinery_fail(&format!("spawn worker: {e}")));
                     let stdout = child.stdout.take().unwrap();
                     let mut got_final = false;
+                    let mut more_after: Option<usize> = None;
                     for line in BufReader::new(stdout).lines() {
                         let Ok(line) = line else { break };
                         let Ok(v) = serde_json::from_str::<Value>(&line) else {
@@ -225,6 +240,9 @@ pub fn parent_run(
                                     }
                                 }
                                 m.capped |= v["capped"].as_bool().unwrap_or(false);
+                                if v["more"].as_bool().unwrap_or(false) {
+                                    more_after = v["last_pos"].as_u64().map(|x| x as usize);
+                                }
                             }
                             _ => {}
                         }
@@ -232,7 +250,13 @@ pub fn parent_run(
                     let status = child.wait();
                     let ok = matches!(&status, Ok(s) if s.success());
                     if ok && got_final {
-                        break;
+                        match more_after {
+                            Some(p) => {
+                                after = Some(p);
+                                continue;
+                            }
+                            None => break,
+                        }
                     }
                     // the worker died: which case was it running?
                     deaths += 1;
